@@ -1170,6 +1170,8 @@ def run(ctx):
     trusted_rows = check_sites(ctx, F)
     c13.check_precision_changers(ctx, F)
     c19.check_inferred_probability(ctx, F)
+    import props.C15 as c15
+    c15.check_builder_size_arithmetic(ctx, F)     # the unchecked writes of the encoder tree builder rely on a node table of `len * 2 - 1` entries: no wrap-around in that size
     c19.check_float_table_monotone(ctx, F)     # the TRUSTED-DATA rows of the `_fast` constructors: the table they store unvalidated is monotone without trusting the float type parameter
     check_strict_producers(ctx, F)
     check_validators_fetch_once(ctx, F)
